@@ -229,57 +229,44 @@ def handle (j : Json) : IO Unit := do
     match acc.fail with
     | none => emit case agree true branch
     | some (sig, note) => emit case agree false branch sig note
-  | "conc" =>
+  | "conc" | "burst" =>
+    -- rounds of operations issued concurrently (conc: one goroutine per endpoint) or back to back without
+    -- waiting (burst); one snapshot per round at quiescence. The model must explain every snapshot by SOME
+    -- schedule; all schedules that explain the history so far are kept as candidates.
+    let isBurst := kind == "burst"
     let n := jnat (jget j "n")
     let ns := jstrList (jget j "names")
     let rounds := (jarr (jget j "rounds")).map (fun r => (jarr r).map parseOp)
     let steps := jarr (jget impl "steps")
-    -- per round: some order of the round's operations must explain the snapshot at quiescence
-    let init : World × (Ref × List Model) × Bool × Option (String × String) := ({ u := Unified.empty, cache := [] }, (Ref.empty, []), true, none)
-    let (_, _, agree, fail) := (rounds.zip steps).foldl (fun (st : World × (Ref × List Model) × Bool × Option (String × String)) (rs : List HOp × Json) =>
-        let (w, (ref, seen), agree, fail) := st
+    let w0 : World := { u := Unified.empty, cache := [] }
+    -- state: candidate worlds, the all-FIFO world (none once it stopped explaining), ref, seen, agree, single, fail
+    let init : List World × Option World × (Ref × List Model) × Bool × Bool × Option (String × String) :=
+      ([w0], some w0, (Ref.empty, []), true, false, none)
+    let (_, fifoW, _, agree, _, fail) := (rounds.zip steps).foldl
+      (fun (st : List World × Option World × (Ref × List Model) × Bool × Bool × Option (String × String)) (rs : List HOp × Json) =>
+        let (cands, fifoW, (ref, seen), agree, single, fail) := st
         let (ops, s) := rs
         let implObs := parseObs (jget s "obs") ns
-        let cands := (permutations ops).map (fun p => p.foldl (fun w o => (stepModel true w o).1) w)
-        let hit := cands.find? (fun w' => modelObs w'.u n ns == implObs)
-        let w' := (hit.getD (cands.headD w))
-        let ref' := ops.foldl (fun r o => r.step (specOp o)) ref      -- distinct endpoints: order-free
-        let seen' := ops.foldl (fun sn o => if (specOp o).rejected then sn else sn ++ (specOp o).models) seen
-        let fail' := match fail with
-          | some f => some f
-          | none => (checkObs n ns ref' seen' implObs true).map (fun c =>
-              (classify c (ops.headD default) false, s!"after a concurrent round {ops.map describe}: {c} disagrees with the last accepted listings"))
-        (w', (ref', seen'), agree && hit.isSome, fail')) init
-    match fail with
-    | none => emit case agree true "conc"
-    | some (sig, note) => emit case agree false "conc" sig note
-  | "burst" =>
-    let n := jnat (jget j "n")
-    let ns := jstrList (jget j "names")
-    let rounds := (jarr (jget j "rounds")).map (fun r => (jarr r).map parseOp)
-    let steps := jarr (jget impl "steps")
-    let init : World × (Ref × List Model) × Bool × Bool × Option (String × String) :=
-      ({ u := Unified.empty, cache := [] }, (Ref.empty, []), true, false, none)
-    let (_, _, agree, reordered, fail) := (rounds.zip steps).foldl
-      (fun (st : World × (Ref × List Model) × Bool × Bool × Option (String × String)) (rs : List HOp × Json) =>
-        let (w, (ref, seen), agree, reordered, fail) := st
-        let (ops, s) := rs
-        let implObs := parseObs (jget s "obs") ns
-        let oks := (jarr (jget s "oks")).map jbool
-        let fifo := fifoWorld w ops
-        let fifoHit := modelObs fifo.u n ns == implObs
-        let hit := if fifoHit then some fifo else (explore (2 * ops.length + 2) w ops).find? (fun w' => modelObs w'.u n ns == implObs)
-        let w' := hit.getD fifo
-        let okAgree := oks == ops.map (fun o => !(specOp o).rejected)
+        let next : List World := cands.flatMap (fun w =>
+          if isBurst then explore (2 * ops.length + 2) w ops
+          else (permutations ops).map (fun p => fifoWorld w p))
+        let hits := (next.filter (fun w' => modelObs w'.u n ns == implObs)).take 48
+        let fifo' := match fifoW with
+          | some w => let w' := fifoWorld w ops; if modelObs w'.u n ns == implObs then some w' else none
+          | none => none
+        let okAgree := !isBurst || (jarr (jget s "oks")).map jbool == ops.map (fun o => !(specOp o).rejected)
         let ref' := ops.foldl (fun r o => r.step (specOp o)) ref
         let seen' := ops.foldl (fun sn o => if (specOp o).rejected then sn else sn ++ (specOp o).models) seen
-        let reordered' := reordered || !fifoHit
+        let single' := single || ops.any (fun o => o.kind == "reg1" && !(specOp o).rejected)
+        let reordered' := isBurst && fifo'.isNone
         let fail' := match fail with
           | some f => some f
-          | none => (checkObs n ns ref' seen' implObs true).map (fun c =>
-              (classify c ((ops.find? (fun o => o.kind == "reg" && (specOp o).rejected)).getD (ops.getLastD default)) reordered', s!"after the burst {ops.map describe}: {c} disagrees with the last accepted listings"))
-        (w', (ref', seen'), agree && hit.isSome && okAgree, reordered', fail')) init
-    let branch := "burst" ++ (if reordered then "+reordered" else "")
+          | none => (checkObs n ns ref' seen' implObs true (!single')).map (fun c =>
+              (classify c ((ops.find? (fun o => o.kind == "reg" && (specOp o).rejected)).getD (ops.getLastD default)) reordered',
+               s!"after the {kind} round {ops.map describe}: {c} disagrees with the last accepted listings"))
+        let cands' := if hits.isEmpty then [fifoWorld (cands.headD w0) ops] else hits
+        (cands', fifo', (ref', seen'), agree && !hits.isEmpty && okAgree, single', fail')) init
+    let branch := kind ++ (if isBurst && fifoW.isNone then "+reordered" else "")
     match fail with
     | none => emit case agree true branch
     | some (sig, note) => emit case agree false branch sig note
